@@ -156,9 +156,12 @@ def set_config(
         ```
     """  # noqa: E501
     params = {k: v for k, v in locals().items() if k != "kwargs"} | kwargs
-    for name, value in params.items():
-        if value is not None:
-            _global_config[name] = tea_tasting.utils.auto_check(value, name)
+    new_config = {
+        name: tea_tasting.utils.auto_check(value, name)
+        for name, value in params.items()
+        if value is not None
+    }
+    _global_config.update(new_config)
 
 
 @contextlib.contextmanager
@@ -223,9 +226,10 @@ def config_context(
     """  # noqa: E501
     new_config = {k: v for k, v in locals().items() if k != "kwargs"} | kwargs
     old_config = get_config()
-    set_config(**new_config)
 
     try:
+        set_config(**new_config)
         yield
     finally:
-        _global_config.update(**old_config)
+        _global_config.clear()
+        _global_config.update(old_config)
